@@ -177,6 +177,25 @@ func DegenerateShapes(r *R) []Degenerate {
 		f.Services = []*ir.Service{svcFor("d.emptylit", "Q", "Q")}
 		add("empty_string_literals", f)
 	}
+	// 11c. enums with a single value (only the zero entry) and the dynamically typed well-known types (whose
+	// NullValue enum has one value too) in a response: directly, through a singular child, in a map value
+	{
+		f := mk("oneval", "d.oneval")
+		f.Enums = []*ir.Enum{{Name: "Only", Values: []ir.EnumValue{{Name: "ONLY_UNSPECIFIED", Number: 0}}}}
+		f.Messages = []*ir.Message{
+			{Name: "Inner", Fields: []*ir.Field{{Name: "only", Number: 1, Kind: "enum", TypeName: ".d.oneval.Only"}}},
+			{Name: "R", Fields: []*ir.Field{
+				{Name: "only", Number: 1, Kind: "enum", TypeName: ".d.oneval.Only"},
+				{Name: "onlies", Number: 2, Kind: "enum", TypeName: ".d.oneval.Only", Card: "repeated"},
+				{Name: "maybe", Number: 3, Kind: "enum", TypeName: ".d.oneval.Only", Card: "optional"},
+				{Name: "inner", Number: 4, Kind: "message", TypeName: ".d.oneval.Inner"},
+				{Name: "by_key", Number: 5, Kind: "message", TypeName: ".d.oneval.Inner", Card: "map", MapKey: "string"},
+				{Name: "dyn", Number: 6, Kind: "message", TypeName: ".google.protobuf.Value"},
+				{Name: "meta", Number: 7, Kind: "message", TypeName: ".google.protobuf.Struct"},
+			}}}
+		f.Services = []*ir.Service{svcFor("d.oneval", "R", "R")}
+		add("single_value_enums_and_dynamic_types", f)
+	}
 	// 12a. a request of more than 6 MiB: an imported tree of 40 files with 40 messages of four fields whose
 	// names take 1000 characters each (the generated file itself is small)
 	{
